@@ -1256,11 +1256,22 @@ class UGrid(DimensionConvention[UGridKind, UGridIndex]):
                 new_edge_indexes, new_node_indexes,
                 primary_dimension=topology.edge_dimension, fill_value=new_fill_value))
 
-        # Save all the topology variables to one combined dataset
+        dimension_masks: dict[Hashable, numpy.ndarray] = {
+            topology.node_dimension: ~numpy.ma.getmask(new_node_indexes),
+            topology.face_dimension: ~numpy.ma.getmask(new_face_indexes),
+        }
+        if has_edges:
+            dimension_masks[topology.edge_dimension] = ~numpy.ma.getmask(new_edge_indexes)
+        mesh_dimensions = set(dimension_masks.keys())
+
+        # Save all the topology variables to one combined dataset.
+        # Coordinates on a mesh dimension are sliced with the data variables below.
         topology_path = work_path / (str(topology.mesh_variable.name) + ".nc")
         topology_dataset = xarray.Dataset(
             data_vars={variable.name: variable for variable in topology_variables},
-            coords=dataset.coords,
+            coords={
+                name: coord for name, coord in dataset.coords.items()
+                if set(coord.dims).isdisjoint(mesh_dimensions)},
         )
         topology_dataset.to_netcdf(topology_path)
         mfdataset_paths.append(topology_path)
@@ -1270,15 +1281,7 @@ class UGrid(DimensionConvention[UGridKind, UGridIndex]):
         del topology_variables
 
         logger.debug("Slicing data variables...")
-        dimension_masks: dict[Hashable, numpy.ndarray] = {
-            topology.node_dimension: ~numpy.ma.getmask(new_node_indexes),
-            topology.face_dimension: ~numpy.ma.getmask(new_face_indexes),
-        }
-        if has_edges:
-            dimension_masks[topology.edge_dimension] = ~numpy.ma.getmask(new_edge_indexes)
-        mesh_dimensions = set(dimension_masks.keys())
-
-        for name, data_array in dataset.data_vars.items():
+        for name, data_array in {**dataset.data_vars, **dataset.coords}.items():
             data_array_path = work_path / (str(name) + '.nc')
             if name in topology_variable_names:
                 logger.debug("Skipping %r as it is a topology variable", name)
